@@ -32,7 +32,7 @@ def run(chk, scratch):
     for wi in range(n_worlds):
         seed = chk.seed * 17 + wi
         d = os.path.join(scratch, "w%d" % wi)
-        w = world2.rich_world(seed, n_chroms=3, genes_per_chrom=3, reads_per_t=5, hidden_cov=5, zoo=world2.ZOO_ALL)
+        w = world2.rich_world(seed, n_chroms=3, genes_per_chrom=3, reads_per_t=5, hidden_cov=5, zoo=world2.ZOO_ALL, unmapped=7)
         rng = random.Random(seed)
         # equal-coordinate records: duplicates of some reads under new names
         base_reads = [r for r in w.reads if not (r.flag & 4) and not r.truth.get("multimap")]
@@ -60,7 +60,9 @@ def run(chk, scratch):
             files = []
             for fi in range(k):
                 p = os.path.join(d, "%s_%d.bam" % (name, fi))
-                rs = [r for r in mapped if assign(r) == fi] + (unmapped if fi == 0 else [])
+                # unmapped records are spread over the files (none in the first file of the 'twins-apart' partition)
+                um = unmapped[fi::k] if name != "twins-apart" else (unmapped if fi == k - 1 else [])
+                rs = [r for r in mapped if assign(r) == fi] + um
                 w.write_bam(p, reads=rs)
                 files.append(p)
             parts[name] = files
